@@ -15,6 +15,7 @@ import Golib.Proof.C03Bridge
 import Golib.Proof.C03OverSkip
 import Golib.Proof.C03Run
 import Golib.Proof.C03Seq
+import Golib.Proof.C03Fresh
 import Golib.Gen.FactsC03
 
 namespace Golib.C03
@@ -357,6 +358,31 @@ example :
       some [([1], true), ([1, 5], true), ([5], true), ([1, 5, 196615], false), ([196615], false),
         ([196615], false)] ∧
     (⟨[(0, .arr #[1, 5]), (3, .arr #[7])], 3⟩ : RB).itPairs 2 = some ([1, 5], [3, 3]) := by decide
+
+/-- The array→bitmap conversion starts from FRESH zero words.  The Go code reinterprets the
+array's backing memory as `[1024]uint64` (a by-value copy), calls `setZero`, then adds the 4096
+buffered values and `x`; the model builds the words from `Array.replicate 1024 0`.  For a full
+array container `v` and a new `x`: the receiver is returned unchanged, the result has 1024 words
+which are, by definition, `bitmapAddRaw (addAllRaw v (zero words)) x`, and EVERY bit position `y`
+of the result is accounted for: it is set iff `y = x` or `y` was a value of `v` — no bit of
+whatever the reinterpreted memory held survives. -/
+theorem c03_conversion_fresh (v : Array Nat) (x : Nat) (hv : (Container.arr v).Inv)
+    (hsz : v.size = 4096) (hx : x < 65536) (hxn : x ∉ v.toList) :
+    ∃ w1 w, addAllRaw v.toList (Array.replicate 1024 0#64) = some w1 ∧ bitmapAddRaw w1 x = some w ∧
+      arrAdd v x = some (v, .bmp 4097 w, true) ∧ w.size = 1024 ∧
+      ∀ y, bitmapContains w y = (decide (y = x) || decide (y ∈ v.toList)) := by
+  obtain ⟨hs, hb, _, _⟩ := hv
+  exact arrAdd_convert_fresh v x hs hb hsz hx hxn
+
+/-- Non-vacuity: the full container `0 … 4095` and `x = 5000` (see the examples of
+`c03_conversion_card`); the all-zero start is what the model's `arrAdd` literally uses. -/
+example : (Container.arr (Array.range 4096)).Inv ∧ (Array.range 4096).size = 4096 ∧
+    5000 ∉ (Array.range 4096).toList ∧
+    bitmapAddRaw (Array.replicate 1024 0#64) 70 =
+      some ((Array.replicate 1024 (0#64 : Word)).setIfInBounds 1 (1#64 <<< 6)) := by
+  refine ⟨⟨?_, ?_, by simp, by simp⟩, by simp, by simp, by simp [bitmapAddRaw]⟩
+  · unfold Sorted; rw [Array.toList_range]; exact List.pairwise_lt_range
+  · intro y hy; rw [Array.toList_range, List.mem_range] at hy; omega
 
 /-- What the hand-written model takes from the source text, re-extracted from /repo by go/ast
 on every run (`Golib/Gen/FactsC03.lean`; a shape that is not found is emitted as `false`/`0`, so
